@@ -12,6 +12,11 @@ ops (hex bytes, `-` = nil/empty):
   get <k>                 -> = <v> | notfound
   list <prefix> <key> <count> <dir> -> <item>,… | nil
   count <prefix>          -> <n>
+requests without a transaction handle (blockchain/localdb.go with Txid = 0; EventLocalPrefixCount):
+they read the committed base database, whatever the LocalDB has buffered
+  bget <k>                -> = <v> | notfound      (an empty stored value reads as notfound)
+  blist <prefix> <key> <count> <dir> -> <item>,… | nil
+  bcount <prefix>         -> <n>
 -/
 
 structure St where
@@ -62,6 +67,23 @@ def step (s : St) (line : String) : St × String :=
     | some p => withL s (fun l => (l, match l.prefixCount p with
                                       | some n => toString n
                                       | none => "fuel"))
+    | none => (s, "bad-op")
+  | ["bget", k] =>
+    match fromHex k with
+    | some k =>
+      (s, match C06.get s.base k with
+          | some v => if v.isEmpty then "notfound" else "= " ++ toHexOrDash v
+          | none => "notfound")
+    | none => (s, "bad-op")
+  | ["blist", p, k, c, d] =>
+    match fromHex p, fromHex k, c.toNat?, d.toNat? with
+    | some p, some k, some c, some d => (s, showItems (listPlain s.base p k c d))
+    | _, _, _, _ => (s, "bad-op")
+  | ["bcount", p] =>
+    match fromHex p with
+    | some p => (s, match countPlain s.base p with
+                    | some n => toString n
+                    | none => "fuel")
     | none => (s, "bad-op")
   | _ => (s, "bad-op")
 
